@@ -88,6 +88,12 @@ def check(ctx):
     for s in stmts_in(fn.body):
         if isinstance(s, ast.Assign) and isinstance(s.value, ast.Call) and (m.resolve_call(fi, s.value) or '').endswith('load_signatures'):
             loads[u(s.targets[0])] = [u(a) for a in s.value.args]
+    if q_sigs not in loads or r_sigs not in loads:
+        # loading may be wrapped in a helper: accept any call whose first argument is the side's own click option
+        for s in stmts_in(fn.body):
+            if isinstance(s, ast.Assign) and isinstance(s.value, ast.Call) and u(s.targets[0]) in (q_sigs, r_sigs) and s.value.args and u(s.value.args[0]) in ('qs', 'rs'):
+                loads.setdefault(u(s.targets[0]), [u(s.value.args[0])])
+    rep.require(q_sigs in loads and r_sigs in loads, 'dist_cmd: cannot find where the signature-file options are loaded')
     rep.add('G1', fi.site(), 'each side loads its own signature file option', loads.get(q_sigs) == ['qs'] and loads.get(r_sigs) == ['rs'], expected={q_sigs: ['qs'], r_sigs: ['rs']}, found=loads, stmt='signature file options')
     ctx_aliases = {'ctx.obj'} | {u(x.targets[0]) for x in stmts_in(fn.body) if isinstance(x, ast.Assign) and u(x.value) == 'ctx.obj'}
     dbs = [s for s in stmts_in(fn.body) if isinstance(s, ast.Assign) and u(s.targets[0]) == r_sigs and u(s.value) in {f'{a}.signatures' for a in ctx_aliases}]
@@ -147,6 +153,10 @@ def check(ctx):
             and vs is not None and u(body_row.args[0].elts[1].value) == u(vs.targets[0])
         rep.add('G4', fw.site(loops[0]), 'each row = its id followed by every value of its matrix row formatted with fmt, in column order', okv and okr, expected=f'[str({rid}), *(format(d, {p[5]}) for d in {vals})]',
                 found=(u(vs.value) if vs is not None else None, u(body_row.args[0]) if body_row is not None else None), stmt='row cells')
+    # "every value being the true signature distance": cell provenance of the bulk functions the command calls (C05-B1), re-evaluated
+    from . import c05
+    rep.rule('B1', 'C05-B1 re-evaluated: every matrix cell is the unmodified kernel value, a copy of a cell, or the zero diagonal')
+    c05.check_stores(ctx)
     wo = [s for s in stmts_in(fw.node.body) if isinstance(s, ast.With)]
     okw = len(wo) == 1 and isinstance(wo[0].items[0].context_expr, ast.Call) and u(wo[0].items[0].context_expr.func) == 'maybe_open' and [u(a) for a in wo[0].items[0].context_expr.args[:2]] == [p[0], "'w'"] \
         and u(get_kw(wo[0].items[0].context_expr, 'newline')) == "''"
@@ -170,5 +180,7 @@ VARIANTS = [
     V('header from the row ids', 'B', _C, "writer.writerow([corner or '', *map(str, col_ids)])", "writer.writerow([corner or '', *map(str, row_ids)])", 'G4'),
     V('values written reversed', 'B', _C, "values_str = (format(d, fmt) for d in values)", "values_str = (format(d, fmt) for d in values[::-1])", 'G4'),
     V('manual join instead of csv.writer', 'B', _C, "writer.writerow([str(row_id), *values_str])", "fobj.write(','.join([str(row_id), *values_str]) + '\\n')", 'G4'),
+    V('empty query short-cut writes 1 into the cells (seeded C16a)', 'B', 'src/gambit/metric.py', "\telse:\n\t\tfor i, ref in enumerate(refs):\n\t\t\tref = _cast_sigs_array(ref)",
+      "\telif len(query) == 0:\n\t\tout[:] = 1\n\n\telse:\n\t\tfor i, ref in enumerate(refs):\n\t\t\tref = _cast_sigs_array(ref)", 'B1'),
     V('E: keyword arguments to the writer', 'E', _D, "dump_dmat_csv(output, dmat, query_ids, ref_ids)", "dump_dmat_csv(output, dmat, row_ids=query_ids, col_ids=ref_ids)"),
 ]
